@@ -209,10 +209,15 @@ class DistributedNetwork(BaseManager):
         """
         # Explicit None checks because we can get 0 as branch level
         if peer.branch_level is not None and peer.branch_root is not None:
-            if not self.parent:
+            # A user that is currently one of our children cannot become our
+            # parent
+            if not self.parent and not self._is_child(peer.username):
                 await self._set_parent(peer)
             else:
                 await peer.connection.disconnect(reason=CloseReason.REQUESTED)
+
+    def _is_child(self, username: str) -> bool:
+        return any(child.username == username for child in self.children)
 
     async def _disconnect_children(self):
         await asyncio.gather(
@@ -275,6 +280,10 @@ class DistributedNetwork(BaseManager):
         """Potentially adds a distributed connection to our list of children.
         """
         if peer.username in self.potential_parents:
+            return
+
+        # Our current parent cannot become our child
+        if self.parent and self.parent.username == peer.username:
             return
 
         if not self._accept_children:
